@@ -249,6 +249,29 @@ def run(prog, R):
             rows.add((tuple(emp), "bare" if bare else ("annotated" if wrapped else "other:" + arg[:60])))
         ok = rows == {((True,), "bare"), ((False,), "annotated")}
         R.ob("C06.4-annotations", "insert_stmt(bare) iff annotations_is_empty, else insert_stmt(AnnotatedStmt::new(stmt, take_annotations()))", ok, b.at, f"{sorted(rows)}")
+    # a declaration written with an initializer has one in the graph -- also on the diagnosed paths (an ill-typed
+    # initializer is reported *and* kept: the statement is the translation of the source statement).  Every call of
+    # declare_classical_helper on a path where the initializer was translated (expr_to_asg_texpr(..) is Some) passes
+    # Some(<that expression, possibly wrapped in a cast>).
+    cd_ = prog.body(S2S + "classical_declaration_statement_to_asg_stmt")
+    if cd_ is None:
+        R.ob("ANCHOR", S2S + "classical_declaration_statement_to_asg_stmt", False)
+    else:
+        se_ = SymExec(prog, cd_, max_visits=1, max_paths=3000)
+        nh_, badi_ = 0, []
+        for q_ in se_.paths():
+            if "__diverged__" in q_.env:
+                continue
+            tr_ = [show(deep_strip(c[1]))[6:-1] for c in q_.conds if c[0] == "switch" and show(deep_strip(c[1])).startswith("discr(expr_to_asg_texpr(") and c[2] == ("eq", 1)]
+            for h_ in q_.calls:
+                if h_[0].endswith("declare_classical_helper") and len(h_[1]) > 1:
+                    nh_ += 1
+                    a_ = show(deep_strip(h_[1][1]))
+                    if tr_ and not (a_.startswith("Option::Some(") and any(t_ + ".0" in a_ for t_ in tr_)):
+                        badi_.append(a_[:80])
+        R.ob("C06.3-initializer-kept", "declare_classical_helper receives Some(initializer) whenever the source has one", nh_ >= 10 and not badi_ and not se_.truncated, cd_.at,
+             f"{nh_} helper calls over all paths; with a translated initializer each passes Some(it) or Some(cast of it)" if not badi_ else
+             f"on a path where the initializer was translated the declaration is built with {sorted(set(badi_))[:2]}: the graph statement loses the initializer the source statement has")
     R.premises(prog, "C06.1-literal-class-premise", ["C10:C10.4-", "C08:C08.1-"], "every literal class maps to the graph literal of the same class (imaginary / timing / bit-string / boolean constructors, signs): C10.4 and C08.1 tables")
     R.premises(prog, "C06.2-parse-shape-premise", ["C05:C05.1-", "C05:C05.4-"], "the graph is built from the typed tree: operand grouping (precedence and associativity tables, C05.1) and the node each token and operand belongs to (C05.4) are what the translation mirrors")
     R.premises(prog, "C06.5-include-premise", ["C18:C18.2-", "C18:C18.5-"], "included files are expanded in place: the n-th include statement is paired with the n-th parsed file (lock-step of the pre-pass and the analyser, C18.2)")
